@@ -417,7 +417,10 @@ class Linear1DGridManifoldInterpolationMethod(
 
             values = m*x + b
 
-            return (values, np.atleast_2d(m))
+            # The gradient array is handed out as a copy. The slope array m
+            # itself stays in the cache and must not be modifiable by the
+            # caller.
+            return (values, np.array(m, ndmin=2))
 
         # The line parametrization is not cached.
         # Calculate the line parametrization for all the given events.
@@ -467,7 +470,9 @@ class Linear1DGridManifoldInterpolationMethod(
         # Calculate the interpolated manifold values. The gradient is m.
         values = m*x + b
 
-        return (values, np.atleast_2d(m))
+        # The gradient array is handed out as a copy. The slope array m itself
+        # stays in the cache and must not be modifiable by the caller.
+        return (values, np.array(m, ndmin=2))
 
 
 class Parabola1DGridManifoldInterpolationMethod(
